@@ -203,6 +203,32 @@ def removalBits (w : World) (t : Nat) : Nat :=
   let nd := w.nodeOfTable t
   Ev.subscription false true false (!nd.ids.isEmpty) nd.rel.isSome nd.rel.isSome
 
+/-- The removal event of `RemoveEntity`: delivered before the removal, with the world locked. -/
+def notifyRemoval (w : World) (t : Nat) (e : Entity) : World × List Delivery :=
+  let nd := w.nodeOfTable t
+  let ev := w.removalEvent t e (w.removalBits t)
+  match w.listener with
+  | none => (w, [])
+  | some L =>
+    let trigger := L.subs &&& ev.types
+    if trigger != 0 && Ev.subscribes trigger none (some nd.mask) L.comps nd.rel none then
+      match w.lock with
+      | none => (w, [])
+      | some (wl, b) =>
+        let evs := (L.receivers ev).map (fun i => wl.observe i ev)
+        ((wl.unlock b).getD wl, evs)
+    else (w, [])
+
+/-- `RemoveEntity` after its checks and its removal event: swap-remove the row, recycle the
+    handle, clear the index entry, retire the empty tables that had the entity as their target,
+    retire the entity's own table if it became an empty table of a dead target. -/
+def removeCore (w : World) (e : Entity) (l : Loc) : World :=
+  let w := w.removeRowFix l.tbl l.row
+  let w := { w with pool := w.pool.recycle e }
+  let w := w.setIndex e.id none
+  let w := if w.flag e.id then (w.cleanupTables e).setFlag e.id false else w
+  w.cleanupTable l.tbl
+
 /-- `World.RemoveEntity(entity)`. -/
 def removeEntity (w : World) (e : Entity) : Res Unit :=
   if w.isLocked then w.fail .locked else
@@ -210,27 +236,8 @@ def removeEntity (w : World) (e : Entity) : Res Unit :=
   | some p => w.fail p
   | none =>
     let l := w.locOf e
-    let nd := w.nodeOfTable l.tbl
-    -- removal event: delivered before the removal, with the world locked
-    let ev := w.removalEvent l.tbl e (w.removalBits l.tbl)
-    let (w, evs) :=
-      match w.listener with
-      | none => (w, [])
-      | some L =>
-        let trigger := L.subs &&& ev.types
-        if trigger != 0 && Ev.subscribes trigger none (some nd.mask) L.comps nd.rel none then
-          match w.lock with
-          | none => (w, [])
-          | some (wl, b) =>
-            let evs := (L.receivers ev).map (fun i => wl.observe i ev)
-            ((wl.unlock b).getD wl, evs)
-        else (w, [])
-    let w := w.removeRowFix l.tbl l.row
-    let w := { w with pool := w.pool.recycle e }
-    let w := w.setIndex e.id none
-    let w := if w.flag e.id then (w.cleanupTables e).setFlag e.id false else w
-    let w := w.cleanupTable l.tbl
-    { w := w, out := .ok (), evs := evs }
+    let r := w.notifyRemoval l.tbl e
+    { w := r.1.removeCore e l, out := .ok (), evs := r.2 }
 
 /-- The per-entity part of `removeEntities`, in row order. -/
 def removeEntitiesRows (w : World) : List Entity → World
